@@ -1,0 +1,28 @@
+//go:build verif
+
+package client
+
+// VerifTableSizes reports the sizes of the per-exchange tables of the connection.
+// Read-only; used by the external simulation harness.
+func (cc *Conn) VerifTableSizes() map[string]int {
+	out := map[string]int{
+		"tokenHandlers": cc.tokenHandlerContainer.Length(),
+		"midHandlers":   cc.midHandlerContainer.Length(),
+		"observations":  cc.observationHandler.VerifLen(),
+	}
+	cc.msgIDMutex.ml.Lock()
+	out["msgIDLocks"] = len(cc.msgIDMutex.ma)
+	cc.msgIDMutex.ml.Unlock()
+	if mc, ok := cc.responseMsgCache.(*messageCache); ok {
+		out["responseCache"] = mc.c.Length()
+	}
+	if cc.blockWise != nil {
+		r, s := cc.blockWise.VerifSizes()
+		out["bwReceiving"] = r
+		out["bwSending"] = s
+	}
+	e, w := cc.LimitParallelRequests.VerifQueues()
+	out["limiterEndpoints"] = e
+	out["limiterWaiters"] = w
+	return out
+}
